@@ -37,6 +37,14 @@ fn main() {
                 std::process::exit(2)
             };
             run::permute(&mut jobs, run::seed());
+            // debugging aid: VX_JOBS=3,17 runs only those jobs (after the permutation) and prints their specs
+            if let Ok(sel) = std::env::var("VX_JOBS") {
+                let want: Vec<usize> = sel.split(',').filter_map(|x| x.trim().parse().ok()).collect();
+                jobs = jobs.into_iter().enumerate().filter(|(i, _)| want.contains(i)).map(|(_, j)| j).collect();
+                for j in &jobs {
+                    eprintln!("selected job: {}", j.spec.to_string().chars().take(700).collect::<String>());
+                }
+            }
             let par = std::env::var("VX_PAR").ok().and_then(|s| s.parse().ok()).unwrap_or(16);
             let start = Instant::now();
             let timeout = if tier == "quick" { 600 } else { 3600 };
